@@ -70,7 +70,7 @@ pub struct Prov<'u> {
     pub u: &'u Universe,
     pub log: Rc<RefCell<Vec<Ev>>>,
     pub polls: Cell<u32>,
-    pub cancel: CancelPlan,
+    pub cancel: Cell<CancelPlan>,
     pub ctl: Option<Rc<Controller>>,
     pub mask: u8,
     pub sort_cb: SortCallback,
@@ -85,7 +85,7 @@ impl<'u> Prov<'u> {
             u,
             log: Rc::new(RefCell::new(Vec::new())),
             polls: Cell::new(0),
-            cancel: CancelPlan::Never,
+            cancel: Cell::new(CancelPlan::Never),
             ctl: None,
             mask: 0,
             sort_cb: SortCallback::None,
@@ -254,7 +254,7 @@ impl DependencyProvider for Prov<'_> {
     fn should_cancel_with_value(&self) -> Option<Box<dyn Any>> {
         let k = self.polls.get();
         self.polls.set(k + 1);
-        let fire = match self.cancel {
+        let fire = match self.cancel.get() {
             CancelPlan::Never => false,
             CancelPlan::At { k: at, sticky } => k == at || (sticky && k > at),
         };
